@@ -808,6 +808,132 @@ def check_simplex(ctx, simplex, systems, label):
             ctx.count("simplex:timeout")
 
 
+# ------------------------------------------------------------------ simplex: correspondence with the Lean model
+def var_id(name):
+    """variable numbering of the model: numeric order = Python's string order of the names"""
+    if name.startswith("$"):
+        return ord(name[1]) - ord("a")
+    return 100 + int(name[1:])
+
+
+def simplex_snapshot(s):
+    return (sorted(var_id(v) for v in s.basic), {var_id(v): Fraction(x) for v, x in s.mapping.items()})
+
+
+def run_simplex_trace(mod, rows, enc, limit=20):
+    """One `Simplex()` object: add_ineqs, then handle_assertion; the state (basic set, mapping) is
+    recorded after add_ineqs and after every check().  Reads internals (basic, mapping, atom,
+    wrong_var): used for the correspondence with the model only."""
+    s = mod.Simplex()
+    s.add_ineqs(*build_ineqs(mod, rows, enc))
+    init = simplex_snapshot(s)
+    atoms = [("le" if isinstance(a, mod.leq_atom) else "ge", var_id(a.var_name), Fraction(a[1])) for a in s.atom]
+    snaps, n = [], [0]
+    orig_check, orig_up, orig_lo = s.check, s.assert_upper, s.assert_lower
+
+    def check():
+        r = orig_check()
+        snaps.append(simplex_snapshot(s))
+        return r
+
+    def up(x, c):
+        n[0] += 1
+        return orig_up(x, c)
+
+    def lo(x, c):
+        n[0] += 1
+        return orig_lo(x, c)
+    s.check, s.assert_upper, s.assert_lower = check, up, lo
+    try:
+        with time_limit(limit):
+            s.handle_assertion()
+        outcome = ("sat",)
+    except Timeout:
+        outcome = ("timeout",)
+    except mod.UNSATException:
+        outcome = ("unsat", var_id(s.wrong_var))
+    except (mod.AssertUpperException, mod.AssertLowerException):
+        outcome = ("conflict", n[0] - 1)
+    return outcome, atoms, init, snaps
+
+
+def parse_simplex_model(line):
+    x = sexp.loads(line)
+    if x == "bad-op":
+        return None
+    oc = x[0]
+    outcome = (oc,) if isinstance(oc, str) else (oc[0], int(oc[1]))
+    atoms = [(k, int(v), Fraction(b)) for k, v, b in x[1]]
+    states = [(sorted(int(b) for b in st[0]), {int(v): Fraction(q) for v, q in st[1]}) for st in x[2:]]
+    return outcome, atoms, states[0], states[1:]
+
+
+SIMPLEX_FUEL = 400
+
+
+def check_simplex_model(ctx, simplex, systems, label):
+    """Correspondence: the real Simplex object against the Lean model of it, step by step (the
+    sequence of assertions of handle_assertion, state compared after every check()); and the
+    per-step oracle: after every check() that answers SAT the current assignment satisfies the
+    constraints asserted so far; an UNSAT / bound conflict at step k means the first k+1 constraints
+    have no rational solution (Z3)."""
+    rng = ctx.rng("simplex-model-enc-" + label)
+    runs, lines = [], []
+    for rows, shape in systems:
+        enc = choose_enc(rng, rows)
+        try:
+            tr = run_simplex_trace(simplex, rows, enc)
+        except Exception as e:  # noqa
+            ctx.count("simplex-model:%s:raise:%s" % (label, type(e).__name__))
+            continue
+        runs.append((rows, enc, tr))
+        qs = []
+        for k, r in enumerate(rows):
+            if enc[k]:
+                qs.append(["ge", [[100 + i, c] for i, c in enumerate(r[:-1]) if c != 0], -r[-1]])
+            else:
+                qs.append(["le", [[100 + i, -c] for i, c in enumerate(r[:-1]) if c != 0], r[-1]])
+        lines.append(sexp.dumps(["simplex", SIMPLEX_FUEL, qs]))
+    out = ctx.lean_driver(EXE, lines) if lines else []
+    ndis = 0
+    for idx, (rows, enc, (outcome, atoms, init, snaps)) in enumerate(runs):
+        nv = len(rows[0]) - 1
+        key = rows_key(rows) + "/" + "".join("g" if e else "l" for e in enc)
+        ctx.case(("simplex-model", key), nontrivial=len(snaps) >= 2 and len(set(tuple(b) for b, _ in snaps)) >= 2)
+        ctx.count("simplex-model:%s:%s" % (label, outcome[0]))
+        npiv = sum(1 for a, b in zip([init] + snaps, snaps) if a[0] != b[0])
+        ctx.count("simplex-model:steps-with-pivot", npiv)
+        rp = {"kind": "simplex", "rows": rows, "enc": enc, "result": repr(outcome)}
+        # ---- per-step oracle on the implementation
+        if outcome[0] != "timeout":
+            for k, (_, mp) in enumerate(snaps):
+                if k == len(snaps) - 1 and outcome[0] == "unsat":
+                    break
+                xs = [mp.get(100 + i, Fraction(0)) for i in range(nv)]
+                viol = [r for r in rows[:k + 1] if sum(c * x for c, x in zip(r[:-1], xs)) + r[-1] < 0]
+                if viol:
+                    report(ctx, "simplex:bad-intermediate-assignment", key, "Simplex on %s (encoding %s): after asserting constraint %d and check() = SAT "
+                           "the assignment %s violates the asserted row %s" % (rows, key.split("/")[1], k, {i: str(x) for i, x in enumerate(xs)}, viol[0]), rp)
+                    break
+            if outcome[0] in ("unsat", "conflict"):
+                k = len(snaps) - 1 if outcome[0] == "unsat" else outcome[1]
+                if 0 <= k < len(rows) and z3_sat(rows[:k + 1], integer=False) is True:
+                    report(ctx, "simplex:wrong-unsat", key, "Simplex on %s (encoding %s) reports a conflict after constraint %d although the constraints "
+                           "asserted so far have a rational solution (Z3)" % (rows, key.split("/")[1], k), rp)
+                ctx.count("oracle:z3-lra")
+        # ---- correspondence
+        if out is not None and outcome[0] != "timeout":
+            m = parse_simplex_model(out[idx])
+            if m != (outcome, atoms, init, snaps):
+                ndis += 1
+                if ndis <= 3:
+                    where = "outcome" if m is None or m[0] != outcome else "atoms" if m[1] != atoms else "initial tableau" if m[2] != init else \
+                        "state after check %d" % next((i for i, (a, b) in enumerate(zip(m[3], snaps)) if a != b), min(len(m[3]), len(snaps)))
+                    ctx.broken("correspondence:c16:simplex", "rows=%s enc=%s differ at %s: impl=%s model=%s" % (rows, key.split("/")[1], where, (outcome,), (m[0] if m else None,)))
+                    ctx.coverage["disagreements_checked"] += 1
+    return out is not None
+
+
 def run_bb(simplex, rows, enc):
     s = simplex.Simplex()
     orig = simplex.deque
@@ -1208,6 +1334,7 @@ def run(ctx):
     rng = ctx.rng("simplex")
     sys2 = [gen_system(rng) for _ in range(ctx.scale(1500, 10000))]
     check_simplex(ctx, simplex, sys2, "random")
+    check_simplex_model(ctx, simplex, sys2, "random")
     ctx.log("simplex stream done (%d)" % len(sys2))
     hh = ctx.coverage["histogram"]
     ctx.coverage["simplex_unsat_certified_by_checkFarkas"] = "%d of %d 'unsatisfiable' answers (the others judged by Z3)" % (
